@@ -7,7 +7,7 @@ import shutil
 
 from mc.core import explore
 from mc.core.evidence import Check, Shard
-from mc.core.pool import Pool, chunks
+from mc.core.pool import Pool, chunks, forked
 from mc.gen import archives, chains
 from mc.lib7z import Collect, seams
 
@@ -237,22 +237,55 @@ def p3_case(ch: explore.Chooser, seed: int):
 
 
 # ---------------------------------------------------------------------------------------------
+def _judge_in_child(a):
+    case, wd, modes = a
+    r = run_case(case, wd, modes=modes)
+    return r, bool(r) and _library_defect(case)
+
+
 def shard(task):
     kind, arg = task
     sh = Shard()
     wd = archives.fresh_dir("c01")
     if kind in ("P1", "P2", "P4", "P5"):
         for case in arg:
-            r = run_case(case, wd, modes=("factory",) if kind == "P5" else ("factory", "path"))
+            modes = ("factory",) if kind == "P5" else ("factory", "path")
+            if "PPMD" in case["chain"] and chains.has_bcj(case["chain"]):
+                # pyppmd decodes in a helper thread; after a failed decode (which some BCJ+PPMd inputs provoke inside the codec
+                # libraries themselves) that thread can take down or block whatever the process does next.  Such cases run in
+                # a child process of their own, so that a library accident cannot be blamed on - or hide - a later case.
+                st, val = forked(_judge_in_child, (case, wd, modes), timeout=600)
+                if st == "ok":
+                    r, libdefect = val
+                elif st == "error":
+                    raise RuntimeError(val)
+                else:
+                    st2, val2 = forked(_judge_in_child, (case, wd, modes), timeout=600)
+                    if st2 == "ok":
+                        r, libdefect = val2
+                        sh.count("child_death_not_reproduced")
+                    else:
+                        st3, val3 = forked(_library_defect, case, timeout=600)
+                        if st3 != "ok" or val3:
+                            r, libdefect = [("child-died", "")], True  # the codec libraries alone misbehave on this input
+                        else:
+                            r, libdefect = [("interpreter-died" if st == "crash" else "hang", f"the process {'died (%s)' % val if st == 'crash' else 'hung'} while py7zr handled this case, twice; the codec libraries alone handle it")], False
+            else:
+                r = run_case(case, wd, modes=modes)
+                libdefect = bool(r) and _library_defect(case)
             nontrivial = any(m[2] > 0 for m in case["members"])
             sh.case(case, nontrivial=nontrivial, sample=case if len(sh.samples) < 1 else None)
             sh.note("chains", case["chain"])
-            if r and _library_defect(case):
+            if r and libdefect:
                 sh.count("codec_library_defect_not_judged")
                 sh.note("codec_library_defects", case["chain"].replace("+AES", ""))
                 continue
             for sym, msg in r:
-                if not confirm_at_real_constants(case):
+                if "PPMD" in case["chain"] and chains.has_bcj(case["chain"]):
+                    confirmed = forked(confirm_at_real_constants, case, timeout=600) in (("ok", True),) or sym in ("interpreter-died", "hang")
+                else:
+                    confirmed = confirm_at_real_constants(case)
+                if not confirmed:
                     sh.count("scaled_only_anomalies")
                     continue
                 sh.violation(sig(case, sym), msg, {"case": case})
